@@ -63,6 +63,7 @@ type OutMsg struct {
 	Retransmitted, RelRetransmitted      bool
 	PublishConn                          int
 	InterruptedBetweenPublishAndComplete bool
+	Dropped                              bool
 }
 
 // ConnState is the broker's view of one network connection.
@@ -344,6 +345,7 @@ func (b *Broker) Accept(c *ConnState) (sessionPresent bool) {
 		b.Sess.AwaitRel = map[uint16]bool{}
 		for _, m := range b.Sess.Inflight {
 			m.Stage = StageComplete // dropped with the session
+			m.Dropped = true
 		}
 		b.Sess.Inflight = nil
 		b.Sess.Present = true
@@ -434,3 +436,6 @@ func (b *Broker) Retransmissions() []*OutMsg {
 	}
 	return l
 }
+
+// DroppedWithSession tells whether the message was discarded by a clean session.
+func (b *Broker) DroppedWithSession(m *OutMsg) bool { return m.Dropped }
